@@ -245,6 +245,30 @@ CHECKS = {
             "own results are minimal for all parameters (C15_constructors_minimal_statement; a bounded instance is computed).",
             "Open known finding: from_substrings with the empty string inside the pattern set and must_be_suffix=True. Fixed by the lead "
             "(trial hunk): from_suffix / from_substring(must_be_suffix=True) with an empty pattern raised IndexError.", "7/C15"),
+    "C19": ("Coq theorems about mirror models of every validate() (first failing check of the code's sequence) against declarative "
+            "well-formedness of raw definitions + differential correspondence (malformed stream; operation battery in four "
+            "interpreter processes, one per combination of the two global flags)",
+            "PARTIAL (proved part + monitored part). Proved for all raw definitions (unbounded; tables in dict order): the constructor's "
+            "validate() returns Ok exactly on the declaratively well-formed definitions, for DFA, NFA, NPDA, DPDA (incl. acceptance "
+            "mode and the lambda/symbol clash rule), DTM/NTM (one shared sequence of checks), MNTM (single-tape rules first, "
+            "InconsistentTapesException only when all of them hold) and GNFA at the structural level (label validity is an input "
+            "bit; the regex validator is C11's); valid_dfa / valid_nfa - the hypothesis of every other FA theorem - are exactly "
+            "'duplicate-free keys and the constructor accepts'; for DFA, NFA, NPDA, DPDA, DTM/NTM and MNTM every exception raised is the documented exception "
+            "of a rule that really is broken (rules stated declaratively, one constructor per documented rule with its exception), a "
+            "definition with a broken rule is rejected, and when all broken rules share one documented exception - in "
+            "particular a single broken rule - exactly that exception is raised; PDA constructors raise only the four documented "
+            "kinds; the DPDA checker C02 reasons about is this checker; valid_pda is 'duplicate-free keys and the NPDA constructor accepts'; results of the Boolean DFA operations, of every expression tree of them, of DFA.from_nfa and of "
+            "NFA.from_dfa pass validate() (collected from C04/C07; extended as further operations get their theorem); on a well-formed "
+            "definition the constructor returns the same object with validation on or off. NOT proved, monitored on every run: that no "
+            "operation reads the two process-wide flags (the same battery of ~75 operations per case runs in four separate interpreter "
+            "processes; verdicts on all words up to length 5, state counts and exception kinds must be identical; every returned "
+            "automaton is re-validated by validate() and by the model in all four); the ORDER in which several broken rules are "
+            "reported (correspondence: implementation = model on pairs of corruptions; implementation = model = documented kind on "
+            "every single-rule corruption); the GNFA label rule beyond the structural level.",
+            "The two flags are interpreter state (DESIGN 6): monitored, not proved. Open known finding: FA validate() accepts a "
+            "transition row keyed by a name outside `states` (not a documented rule; TM classes do check it). PDA validate() does not "
+            "check target states or pushed symbols and TM validate() does not check that the blank is outside the input symbols: "
+            "neither is a documented/tested rule, none is generated.", "7/C19"),
 }
 
 PENDING = {}
